@@ -374,5 +374,37 @@ func RunCuts(out string) {
 			}
 		}
 	}
+	// damaged member x cache x revisits: a member whose deflate data, CRC-32 or ISIZE is damaged
+	// must give an error (or its true data) on every visit, also when blocks of the file are
+	// cached, the cache is attached late, and the damaged offset is left and revisited
+	for fi, f := range files {
+		if len(f.Bytes) > 4000 || len(f.Members) < 3 {
+			continue
+		}
+		for mi, m := range f.Members {
+			if m.Len == 0 {
+				continue
+			}
+			for _, p := range []int64{m.Base + 19, m.Base + int64(m.Size) - 8, m.Base + int64(m.Size) - 3} {
+				s := append([]byte(nil), f.Bytes...)
+				s[p] ^= 0x40
+				other := (mi + 1) % len(f.Members)
+				directed := []bgz.ROp{{K: "read", N: f.Members[0].Len}, {K: "seek", M: mi}, {K: "read", N: 4},
+					{K: "setcache", Kind: []string{"LRU", "FIFO", "Random"}[(fi+mi)%3], Cap: 1 + (mi % 2)},
+					{K: "seek", M: other}, {K: "read", N: 3}, {K: "seek", M: mi}, {K: "read", N: 4}, {K: "seek", M: other}, {K: "read", N: 2},
+					{K: "seek", M: mi}, {K: "readbyte"}}
+				for _, rd := range []int{1, 2, 4} {
+					bgz.RunReader(t, bgz.RScenario{Class: "subst-cache", File: f, Stream: s, Faultable: true, Altered: true, CutLen: -1, RD: rd, Ops: directed})
+					for k := 0; k < 2; k++ {
+						ops := history(r, f, 14, true)
+						if k == 1 {
+							ops = append([]bgz.ROp{{K: "setcache", Kind: []string{"LRU", "FIFO", "Random"}[r.Intn(3)], Cap: 1 + r.Intn(3)}}, ops...)
+						}
+						bgz.RunReader(t, bgz.RScenario{Class: "subst-cache", File: f, Stream: s, Faultable: true, Altered: true, CutLen: -1, RD: rd, Ops: ops})
+					}
+				}
+			}
+		}
+	}
 	tr.Summary(tr.M{"scenarios": t.Scen, "lines": t.Lines, "sigs": t.Sigs()})
 }
